@@ -19,6 +19,18 @@ def _big_stack():
     except Exception:
         pass
 
+def _client_stack():
+    """the C harness runs like an ordinary client: the usual 8 MiB main-thread stack, whatever the caller's limit is (a
+    recursive walker that puts a large buffer into every frame must show at the deepest nesting the decoder accepts)"""
+    try:
+        soft, hard = resource.getrlimit(resource.RLIMIT_STACK)
+        want = 8 << 20
+        if hard != resource.RLIM_INFINITY and hard < want:
+            want = hard
+        resource.setrlimit(resource.RLIMIT_STACK, (want, hard))
+    except Exception:
+        pass
+
 def _run_lines(cmd, cases, timeout, env=None):
     """run cmd over the cases; returns list of result lines, one per case; crashes are isolated"""
     out = []
@@ -31,7 +43,7 @@ def _run_lines(cmd, cases, timeout, env=None):
         inp = "\n".join(cases[i:]) + "\n"
         try:
             p = subprocess.run(cmd, input=inp, stdout=subprocess.PIPE, stderr=subprocess.PIPE, text=True,
-                               timeout=timeout, env=e, errors="replace", preexec_fn=_big_stack)
+                               timeout=timeout, env=e, errors="replace", preexec_fn=(_big_stack if cmd and cmd[0] == DRIVER else _client_stack))
             lines = p.stdout.split("\n")
             if lines and lines[-1] == "":
                 lines.pop()
